@@ -381,6 +381,21 @@ def run(run):
     for text, res in classify_all(deep_texts(40), procs=4, chunk=8):
         judge(run, text, res, "deep-nesting")
         n_cases += 1
+    # -- the read-eval-print loop on top of the parser (Repl.tla): continuation prompts follow the parser's
+    # verdict on the buffer; a parser that fails with a host exception would make the loop ask for more for ever
+    from . import repl
+    beh = repl.model_behaviours(run, "Repl_quick" if quick else "Repl_thorough",
+                                "Repl: every way of typing <= %d tokens in lines" % (3 if quick else 4))
+
+    def _parse_viol(key, what, case):
+        run.violation(key, what, case)
+
+    def _eval_note(key, what, case):            # evaluation-level failures of a session are C13's subject
+        run.drift("repl-evaluation-failure", {"key": key, "what": what})
+    rstats = repl.replay(run, beh, rng, 600 if quick else 20000, _parse_viol, _eval_note,
+                         max_finished=7000 if quick else 60000)
+    run.cov["repl"] = dict(rstats, model_behaviours=len(beh))
+    n_cases += rstats["behaviours"]
     run.cov["traces_validated_against_impl"] = n_cases
     run.cov["evaluations"] = 2 * n_cases
     run.cov["distinct_nontrivial"] = n_cases - 1
@@ -400,5 +415,13 @@ def run(run):
 
 
 def replay(run, case):
+    if case.get("kind") == "repl":
+        from . import repl
+        prompts, outputs, exc = repl.session(case["lines"])
+        buf = "".join(case["lines"])
+        cls, detail = repl.parse_class(buf)
+        if exc is not None or cls == "host":
+            run.violation("repl-host:" + buf, f"repl-host-exception: {type(exc).__name__ if exc else detail} on {buf!r}", case)
+        return
     res = _work([case["text"]])[0][1]
     judge(run, case["text"], res, case.get("origin", "replay"))
